@@ -335,6 +335,28 @@ Definition cand_wire (op : list Z) : option (list Z) :=
   | _ => None
   end.
 
+(* ---------- failure_domain.go: RackBasedFailureDomain.GetFailureDomain ----------
+   A host name is a byte string (list of byte values).  strings.TrimRight(host, "0123456789") removes the
+   trailing ASCII digits (byte-wise: the cut set is ASCII); the cluster is the first two bytes of the rack
+   name when it is longer than two bytes, else the rack name itself.  Result: [host; rack; cluster]. *)
+Definition is_digit (c : Z) : bool := ((48 <=? c) && (c <=? 57))%Z.
+Fixpoint trim_right_digits (s : list Z) : list Z :=
+  match s with
+  | [] => []
+  | c :: r => match trim_right_digits r with
+              | [] => if is_digit c then [] else [c]
+              | r' => c :: r'
+              end
+  end.
+Definition rack_of (h : list Z) : list Z := trim_right_digits h.
+Definition cluster_of (h : list Z) : list Z :=
+  let r := rack_of h in if (2 <? length r)%nat then firstn 2 r else r.
+Definition gfd (h : list Z) : list (list Z) := [h; rack_of h; cluster_of h].
+
+(* wire: 5 :: bytes of the host name  ->  length-prefixed rack name, length-prefixed cluster name *)
+Definition gfd_wire (h : list Z) : list Z :=
+  (Z.of_nat (length (rack_of h)) :: rack_of h) ++ (Z.of_nat (length (cluster_of h)) :: cluster_of h).
+
 Definition step_wire (op : list Z) : list Z :=
   let bad := [(-1)%Z] in
   match op with
@@ -342,6 +364,7 @@ Definition step_wire (op : list Z) : list Z :=
   | 2%Z :: r => match wrand_wire r with Some v => v | None => bad end
   | 3%Z :: r => match index_wire r with Some v => v | None => bad end
   | 4%Z :: r => match cand_wire r with Some v => v | None => bad end
+  | 5%Z :: r => gfd_wire r
   | _ => bad
   end.
 
